@@ -16,6 +16,7 @@ const (
 	SBV
 	SString
 	SRegLan
+	SInt
 )
 
 type Sort struct {
@@ -39,6 +40,8 @@ func (s Sort) String() string {
 		return "String"
 	case SRegLan:
 		return "RegLan"
+	case SInt:
+		return "Int"
 	}
 	return "?"
 }
